@@ -23,7 +23,7 @@ CLAIMS = {
              "statistics, string conversion, hashes, exports, getters, Bloom set operations) has an empty transitive write effect "
              "on the receiver, on parameter state and on class state (closed over the resolved call graph incl. function-pointer "
              "slots; reading from a mapping the structure keeps open counts as an effect on its cursor); set operations never write the "
-             "non-receiver operand; clear() writes every field a state mutator writes, with the constructor's initial value and arrays "
+             "non-receiver operand and never leave in the receiver the operand's own mutable object or a shallow copy that shares its inner array; clear() writes every field a state mutator writes, with the constructor's initial value and arrays "
              "zeroed over their full range (a cell may be skipped only where it already is zero). Structural, near-sufficient: what is trusted is the "
              "mutability table of builtin containers and the purity contract of user hash callables.",
         design_ref="DESIGN.md section 4 C19, section 3 E3"),
@@ -104,7 +104,8 @@ CLAIMS = {
              "itemsize x length, expanding frames consumed with an exactly advancing cursor (a frame whose counter reads 0 may be left as built when an empty sub-filter provably has zero cells, the cursor still advancing), __bytes__/path export delegate to one "
              "body (or spell out its emission list), the cuckoo empty-slot marker is outside the fingerprint interval, inherited alternate "
              "constructors build cls, a raw array initialiser is bytes (not an iterated buffer), Bloom constructors take the documented "
-             "precedence file / hex string / parameters. "
+             "precedence file / hex string / parameters; a field the parameter branch of a constructor computes is not left at a placeholder constant by the loading branch; "
+             "sub-structures built while loading are given the hashing strategy the structure ends up with. "
              "Query-by-query equality and byte-exact re-export are consequences, not checked facts.",
         design_ref="DESIGN.md section 4 C05, E6"),
     "C07": dict(
@@ -199,9 +200,11 @@ CLAIMS = {
              "visible in the shape of the code: a look-up reports a slot only inside the element's own run, removing a run's only "
              "element clears its occupied bit, the bits of an inserted element follow their definitions (shifted iff slot != "
              "quotient, continuation iff slot != run start, occupied[q] set), and hashes() starts its walk at an empty slot or, "
-             "failing that, a cluster start. NOT decided - and this is the heart of the property: that "
-             "run/cluster shifting keeps the layout canonical for every neighbourhood shape, and termination (a throw-away probe does "
-             "show IndexError/non-termination in _remove_element for some add/remove histories; no static rule here sees that).",
+             "failing that, a cluster start; (f) in the removal routine a cyclic walk that leaves only through the metadata bits, after the routine has "
+             "stored into them, is also bounded by an index comparison, and a walk that ended at that bound is followed by the re-marking pass "
+             "(written from defect D14: removal from a table without an empty slot did not return; repaired in /repo). NOT decided - and this is the heart of the property: that "
+             "run/cluster shifting keeps the layout canonical for every neighbourhood shape, and termination of the other cyclic walks (insertion shift, start search), "
+             "which rest on 'the table is not full' / 'a non-empty table has a cluster start'.",
         design_ref="DESIGN.md section 4 C04"),
 }
 
